@@ -5,7 +5,7 @@ import os, sys, json, time, random, shutil, itertools
 
 sys.path.insert(0, os.path.dirname(os.path.abspath(__file__)))
 from sched_lsp import Server, make_workspace, path_uri, run_driver  # noqa: E402
-from sched_sessions import text_of, disk_text, notif_msg, observe_marker, expected_last_writer  # noqa: E402
+from sched_sessions import text_of, disk_text, notif_msg, observe_marker, expected_last_writer, spell_uri, special_name, SPELLINGS  # noqa: E402
 from sched_run import read_trace  # noqa: E402
 
 RELOAD_DELAY = 2.0   # CONFIG_RELOAD_DELAY in workspace_manager.rs
@@ -24,9 +24,11 @@ def c29_session(rep, seed, sched_seed, rounds, distinct):
     rng = random.Random(seed * 3000017 + (sched_seed or 0))
     NDISK, NURIS = 2, 4
     files = {f"fill/m{i}.lua": f"local M{i} = {{}}\nfunction M{i}.f(a, b) return a + b + {i} end\nreturn M{i}\n" for i in range(NFILL)}
+    # file names with URI-reserved / non-ASCII characters; the client spells their uris differently from the server
+    fname = lambda r, i: f"r{r}_{special_name(r, i)}_f{i}.lua"
     for r in range(rounds):
         for i in range(NDISK):
-            files[f"r{r}_f{i}.lua"] = disk_text(i)
+            files[fname(r, i)] = disk_text(i)
     ws = make_workspace(files, emmyrc={"diagnostics": {"diagnosticInterval": 200}})
     trace = os.path.join(ws, ".verif-trace.tsv")
     srv = Server(ws, sched_seed=sched_seed, sched_max_ms=4, trace=trace)
@@ -39,7 +41,7 @@ def c29_session(rep, seed, sched_seed, rounds, distinct):
             return
         srv.settle(0.6, 20.0)
         for r in range(rounds):
-            uris = [path_uri(os.path.join(ws, f"r{r}_f{i}.lua")) for i in range(NURIS)]
+            uris = [spell_uri(os.path.join(ws, fname(r, i)), SPELLINGS[(r + i) % 3]) for i in range(NURIS)]
             # some documents are already open (and edited) before the reload is requested
             pre = []
             for u in range(NURIS):
@@ -87,7 +89,9 @@ def c29_session(rep, seed, sched_seed, rounds, distinct):
             exp = expected_last_writer(allev, NDISK, NURIS)
             rep.d["evaluations"] += 1
             shape = ",".join(f"{e['k']}{e['u']}" for e in allev)
-            desc = dict(desc0, round=r, events=[{k: v for k, v in e.items() if k != "text"} for e in allev])
+            desc = dict(desc0, round=r, events=[{k: v for k, v in e.items() if k != "text"} for e in allev],
+                        uris=[u.rsplit("/", 1)[1] for u in uris])
+            rep.count("special_name_uri_rounds")
             enc = ",".join((f"x{e['u']}" if e["k"] == "x" else f"e{e['u']}:{e['t']}") for e in allev) or "-"
             disk = ",".join(f"{i}={900 + i}" for i in range(NDISK))
             us = ",".join(map(str, range(NURIS)))
@@ -105,7 +109,8 @@ def c29_session(rep, seed, sched_seed, rounds, distinct):
                     rep.mismatch({"what": f"uri {u}: observed {obs[u]}, the model's quiescent state has {model[u]}", "input": desc, "model": outs})
                 if obs[u] != exp[u]:
                     cls = "open-file-lost-editor-text" if exp[u] and exp[u][0] == "v" else "closed-file-not-disk"
-                    rep.oracle_failure({"class": cls, "what": f"uri {u}: after the reload settled the analysis has {obs[u]}; expected {exp[u]} "
+                    cls += "-uri-spelling" if uris[u] != path_uri(os.path.join(ws, fname(r, u))) else ""
+                    rep.oracle_failure({"class": cls, "what": f"uri {u} (sent as …/{uris[u].rsplit('/', 1)[1]}): after the reload settled the analysis has {obs[u]}; expected {exp[u]} "
                                         f"(events {shape})", "input": desc})
             if len(outs) > 1 and outs[1].startswith("ok counter"):
                 rep.mismatch({"what": "model finds a non-converging schedule for an observed event list", "model": outs[1], "input": desc})
@@ -188,7 +193,7 @@ def c29_membership_session(rep, seed, sched_seed, rounds, distinct):
             kind = "bring-in" if r % 2 == 0 else "out-and-back"
             d = "ex" if kind == "bring-in" else "inc"
             # uris 0,1 on disk, 2,3 editor-only, all in the directory whose membership changes
-            uris = [path_uri(os.path.join(ws, f"r{r}_{d}", f"f{i}.lua")) for i in range(4)]
+            uris = [spell_uri(os.path.join(ws, f"r{r}_{d}", f"f{i}.lua"), SPELLINGS[(r + i) % 3]) for i in range(4)]
             evs = []
 
             def send(k, u):
